@@ -511,3 +511,141 @@ Section Concrete.
     rewrite (spec_segment_eq seg C). fold v. destruct v; reflexivity.
   Qed.
 End Concrete.
+
+(** ------------------------------------------------------------------
+    The cached verifier (Verifier.Cache non-nil, cache keyed by ISD-AS, subject
+    key id and validity) gives, for every sequence of segments, the verdicts of
+    the uncached one. *)
+Lemma ckey_eqb_eq a b : ckey_eqb a b = true <-> a = b.
+Proof.
+  destruct a as [[ia sk] [nb na]], b as [[ia' sk'] [nb' na']]. unfold ckey_eqb.
+  rewrite !andb_true_iff, N.eqb_eq, bytes_eqb_eq, !Z.eqb_eq. split.
+  - intros [[[-> ->] ->] ->]. reflexivity.
+  - intros E. inversion E. auto.
+Qed.
+
+Section CachedProofs.
+  Variable PK : Type.
+  Variable sig_valid : PK -> bytes -> bytes -> bool.
+  Variable hash : N -> bytes -> bytes.
+  Variable kind : PK -> N.
+  Variable notify : N -> N -> N -> bool.
+  Variable certs_for : N -> bytes -> validity -> option (list PK).
+
+  Notation tv := (trust_verify PK sig_valid hash kind notify certs_for).
+  Notation tvc := (trust_verify_cached PK sig_valid hash kind notify certs_for).
+  Notation vf := (verify_from PK sig_valid hash kind notify certs_for).
+  Notation vfc := (verify_from_cached PK sig_valid hash kind notify certs_for).
+
+  (** every cached answer is the engine's answer to exactly that query *)
+  Definition vcache_ok (c : @vcache PK) : Prop :=
+    (forall i b s, In (i, b, s) (vc_trc c) -> notify i b s = true) /\
+    (forall ia sk v keys, In ((ia, sk, v), keys) (vc_chain c) -> certs_for ia sk v = Some keys).
+
+  Lemma vc_empty_ok : vcache_ok vc_empty.
+  Proof. split; intros; contradiction. Qed.
+
+  Lemma notify_cached_ok c i b s :
+    vcache_ok c ->
+    fst (notify_cached PK notify c i b s) = notify i b s /\ vcache_ok (snd (notify_cached PK notify c i b s)).
+  Proof.
+    intros [Ht Hc]. unfold notify_cached.
+    destruct (existsb (tkey_eqb (i, b, s)) (vc_trc c)) eqn:E.
+    - cbn [fst snd]. split; [|split; assumption].
+      apply existsb_exists in E. destruct E as ([[i' b'] s'] & Hin & He).
+      unfold tkey_eqb in He. apply andb_true_iff in He as [He H3]. apply andb_true_iff in He as [H1 H2].
+      apply N.eqb_eq in H1, H2, H3. subst. symmetry. now apply Ht.
+    - destruct (notify i b s) eqn:Nt; cbn [fst snd]; (split; [reflexivity|]); [|split; assumption].
+      split; cbn [vc_trc vc_chain]; [|exact Hc].
+      intros i' b' s' [Eq|Hin]; [inversion Eq; subst; exact Nt|now apply Ht].
+  Qed.
+
+  Lemma chains_cached_ok c ia sk v :
+    vcache_ok c ->
+    fst (chains_cached PK certs_for c ia sk v) = certs_for ia sk v /\
+    vcache_ok (snd (chains_cached PK certs_for c ia sk v)).
+  Proof.
+    intros [Ht Hc]. unfold chains_cached.
+    destruct (find (fun p => ckey_eqb (fst p) (ia, sk, v)) (vc_chain c)) as [[k keys]|] eqn:F.
+    - cbn [fst snd]. split; [|split; assumption].
+      apply find_some in F as [Hin Hk]. cbn [fst] in Hk. apply ckey_eqb_eq in Hk. subst k.
+      symmetry. now apply Hc.
+    - destruct (certs_for ia sk v) as [[|x t]|] eqn:C; cbn [fst snd]; (split; [reflexivity|]);
+        try (split; assumption).
+      split; cbn [vc_trc vc_chain]; [exact Ht|].
+      intros ia' sk' v' keys' [Eq|Hin]; [inversion Eq; subst; exact C|now apply Hc].
+  Qed.
+
+  Lemma trust_verify_cached_ok c bound v hb sg ad :
+    vcache_ok c ->
+    fst (tvc c bound v hb sg ad) = tv bound v hb sg ad /\ vcache_ok (snd (tvc c bound v hb sg ad)).
+  Proof.
+    intros Hc. unfold trust_verify_cached, trust_verify.
+    destruct (parse_hb hb) as [[h body]|]; [|now split].
+    destruct (parse_keyid (h_keyid h)) as [kid|]; [|now split].
+    destruct (k_skid kid) as [|x0 t0] eqn:Esk; [now split|]. rewrite <- Esk.
+    destruct (negb (bound =? 0) && negb (bound =? k_ia kid)); [now split|].
+    destruct (is_wildcard (k_ia kid)); [now split|].
+    destruct (notify_cached_ok c (isd_of (k_ia kid)) (k_base kid) (k_serial kid) Hc) as [N1 N2].
+    destruct (notify_cached PK notify c (isd_of (k_ia kid)) (k_base kid) (k_serial kid)) as [nok c1].
+    cbn [fst snd] in N1, N2. rewrite <- N1.
+    destruct nok; cbn [negb]; [|now split].
+    destruct (chains_cached_ok c1 (k_ia kid) (k_skid kid) v N2) as [C1 C2].
+    destruct (chains_cached PK certs_for c1 (k_ia kid) (k_skid kid) v) as [ch c2].
+    cbn [fst snd] in C1, C2. rewrite <- C1.
+    destruct ch; now split.
+  Qed.
+
+  Lemma verify_from_cached_ok info ts : forall es c earlier,
+    vcache_ok c ->
+    fst (vfc c info ts earlier es) = vf info ts earlier es /\ vcache_ok (snd (vfc c info ts earlier es)).
+  Proof.
+    induction es as [|e t IH]; intros c earlier Hc; [now split|].
+    cbn [verify_from_cached verify_from].
+    destruct (trust_verify_cached_ok c (e_local e) (entry_validity ts e) (e_hb e) (e_sig e)
+                                     (assoc info earlier) Hc) as [T1 T2].
+    destruct (tvc c (e_local e) (entry_validity ts e) (e_hb e) (e_sig e) (assoc info earlier)) as [ok c1].
+    cbn [fst snd] in T1, T2. rewrite <- T1.
+    destruct ok; cbn [andb]; [now apply IH|now split].
+  Qed.
+
+  Lemma verify_segment_cached_ok c s :
+    vcache_ok c ->
+    fst (verify_segment_cached PK sig_valid hash kind notify certs_for c s)
+    = verify_segment PK sig_valid hash kind notify certs_for s /\
+    vcache_ok (snd (verify_segment_cached PK sig_valid hash kind notify certs_for c s)).
+  Proof. intros Hc. unfold verify_segment_cached, verify_segment. now apply verify_from_cached_ok. Qed.
+
+  Lemma verify_segments_cached_ok : forall ss c,
+    vcache_ok c ->
+    fst (verify_segments_cached PK sig_valid hash kind notify certs_for c ss)
+    = map (verify_segment PK sig_valid hash kind notify certs_for) ss.
+  Proof.
+    induction ss as [|s t IH]; intros c Hc; [reflexivity|].
+    cbn [verify_segments_cached map].
+    destruct (verify_segment_cached_ok c s Hc) as [S1 S2].
+    destruct (verify_segment_cached PK sig_valid hash kind notify certs_for c s) as [r c1].
+    cbn [fst snd] in S1, S2. specialize (IH c1 S2).
+    destruct (verify_segments_cached PK sig_valid hash kind notify certs_for c1 t) as [rs c2].
+    cbn [fst] in *. now rewrite S1, IH.
+  Qed.
+End CachedProofs.
+
+(** the concrete sequence model used by [check] *)
+Lemma verify_steps_cached_c_ok pki trcs : forall steps c,
+  vcache_ok key (notify_c trcs) (certs_for_c pki) c ->
+  verify_steps_cached_c pki trcs c steps
+  = map (fun st => verify_segment_c pki trcs (st_tbl st) (st_seg st)) steps.
+Proof.
+  induction steps as [|st t IH]; intros c Hc; [reflexivity|].
+  cbn [verify_steps_cached_c map].
+  destruct (verify_segment_cached_ok key (sig_valid_c (st_tbl st)) hash_c kind_c (notify_c trcs)
+                                     (certs_for_c pki) c (st_seg st) Hc) as [S1 S2].
+  destruct (verify_segment_cached key (sig_valid_c (st_tbl st)) hash_c kind_c (notify_c trcs)
+                                  (certs_for_c pki) c (st_seg st)) as [r c1].
+  cbn [fst snd] in S1, S2. rewrite S1. unfold verify_segment_c at 1. f_equal. now apply IH.
+Qed.
+
+Lemma model_verdicts_cache_irrelevant pki trcs steps :
+  model_verdicts pki trcs true steps = model_verdicts pki trcs false steps.
+Proof. unfold model_verdicts. apply verify_steps_cached_c_ok. apply vc_empty_ok. Qed.
